@@ -39,10 +39,13 @@ const (
 	cbDrop
 	cbCoordinatorMoved
 	cbPartial // one partition errs, the others are accepted
+	// the group moves to another broker; the old one answers this and every later commit it still gets
+	// with COORDINATOR_NOT_AVAILABLE (it never says NOT_COORDINATOR)
+	cbCoordinatorMovedCNA
 	nCommitBehaviours
 )
 
-var cbNames = []string{"accept", "not-coordinator", "coordinator-not-available", "metadata-too-large", "load-in-progress", "unknown-topic", "other", "omit-block", "drop", "coordinator-moved", "partial"}
+var cbNames = []string{"accept", "not-coordinator", "coordinator-not-available", "metadata-too-large", "load-in-progress", "unknown-topic", "other", "omit-block", "drop", "coordinator-moved", "partial", "coordinator-moved-old-one-not-available"}
 
 type omScenario struct {
 	Topics          int   // partitions are spread round-robin over this many topics
@@ -213,7 +216,7 @@ func omScenarioFor(rng *rand.Rand, tier string) *omScenario {
 		sc.Ops[g] = append(sc.Ops[g], op)
 	}
 	nb := rng.Intn(12)
-	weights := []int{30, 6, 5, 4, 6, 4, 4, 4, 5, 4, 6}
+	weights := []int{30, 6, 5, 4, 6, 4, 4, 4, 5, 4, 6, 4}
 	sum := 0
 	for _, w := range weights {
 		sum += w
@@ -224,6 +227,9 @@ func omScenarioFor(rng *rand.Rand, tier string) *omScenario {
 			if x < w {
 				if b == cbCoordinatorMoved && sc.Brokers < 2 {
 					b = cbNotCoordinator
+				}
+				if b == cbCoordinatorMovedCNA && sc.Brokers < 2 {
+					b = cbCoordNotAvailable
 				}
 				sc.Behaviours = append(sc.Behaviours, b)
 				break
@@ -330,7 +336,7 @@ func runOM(sc *omScenario, rng *rand.Rand) *omResult {
 	sink.extra = func() int64 { return sim.Progress() + atomic.LoadInt64(&appProgress) }
 
 	var bi int32
-	var closing, ci int32
+	var closing, ci, staleCNA int32
 	initFaults := int32(sc.InitFetchFaults)
 	sim.OnGroup = func(ctx *sarama.VSimGroupCtx) sarama.VSimGroupAction {
 		if ctx.Kind == "offset-fetch" && atomic.AddInt32(&initFaults, -1) >= 0 {
@@ -338,6 +344,9 @@ func runOM(sc *omScenario, rng *rand.Rand) *omResult {
 		}
 		if ctx.Kind != "commit" {
 			return sarama.VSimGroupAction{}
+		}
+		if atomic.LoadInt32(&staleCNA) == 1 && ctx.Broker != sim.Coordinator(ctx.Group) {
+			return sarama.VSimGroupAction{Kind: sarama.VGError, Code: sarama.ErrConsumerCoordinatorNotAvailable}
 		}
 		beh := cbAccept
 		if atomic.LoadInt32(&closing) == 1 {
@@ -370,6 +379,10 @@ func runOM(sc *omScenario, rng *rand.Rand) *omResult {
 			return sarama.VSimGroupAction{Kind: sarama.VGDropBefore}
 		case cbCoordinatorMoved:
 			return sarama.VSimGroupAction{Kind: sarama.VGMoveCoordinator, MoveTo: ctx.Broker%int32(sc.Brokers) + 1}
+		case cbCoordinatorMovedCNA:
+			sim.SetCoordinator(ctx.Group, ctx.Broker%int32(sc.Brokers)+1)
+			atomic.StoreInt32(&staleCNA, 1)
+			return sarama.VSimGroupAction{Kind: sarama.VGError, Code: sarama.ErrConsumerCoordinatorNotAvailable}
 		case cbPartial:
 			if len(ctx.Blocks) > 0 {
 				b := ctx.Blocks[0]
